@@ -92,6 +92,38 @@ pub fn run(args: &[&str]) -> Option<String> {
                 None => "PANIC".into(),
             })
         }
+        ["editlc", h, a, b, c, d, ins] => {
+            // as `edit`, then the positions the server's KEPT line table gives for every offset of the new text
+            let text = unhex(h)?;
+            let ins = unhex(ins)?;
+            let (a, b, c, d): (u32, u32, u32, u32) =
+                (a.parse().ok()?, b.parse().ok()?, c.parse().ok()?, d.parse().ok()?);
+            let r = guarded(AssertUnwindSafe(|| {
+                let mut vfs = api::Vfs::new();
+                let file = vfs.set_path_content(api::vfs_path("/doc.gleam"), text);
+                let del = match api::from_range(&vfs, file, a, b, c, d) {
+                    Some((s, e)) => TextRange::new(TextSize::from(s), TextSize::from(e)),
+                    None => return None,
+                };
+                vfs.change_file_content(file, Some(del), &ins).ok()?;
+                let t = vfs.content_for_file(file).to_string();
+                let m = vfs.line_map_for_file(file);
+                let mut out = hex(&t);
+                for p in 0..(t.len() as u32 + 2) {
+                    out.push(' ');
+                    match guarded(AssertUnwindSafe(|| m.line_col_for_pos(TextSize::from(p)))) {
+                        Some((l, c)) => out.push_str(&format!("{l}:{c}")),
+                        None => out.push('!'),
+                    }
+                }
+                Some(out)
+            }));
+            Some(match r {
+                Some(Some(t)) => format!("ok {t}"),
+                Some(None) => "err".into(),
+                None => "PANIC".into(),
+            })
+        }
         ["editfull", h, ins] => {
             let text = unhex(h)?;
             let ins = unhex(ins)?;
